@@ -439,6 +439,18 @@ def _workload(tier, rng, shard, nshards):
             if tiny:
                 REC.cls("C14:align:rounding-noise-sized-jitter")
             tg.addTier(make_tier(k2, "u", jitter_tier(rng, refs, D, k2, dyadic, tiny), 0.0, 6.0 + 20 * D), rng.choice([None, 0, 1]), reportingMode="silence")
+            if refs and rng.random() < 0.3:
+                # a tier that covers only the stretch before the first (or after the last) reference timestamp - a cropped tier, or
+                # one built without an explicit span - whose outermost boundary is within maxDifference of that timestamp
+                REC.cls("C14:align:tier-span-beside-the-reference-timestamps")
+                f = rng.choice([0.3, 0.6, 0.9])
+                if rng.random() < 0.5 and refs[0] - f * D > 0.05:
+                    edge = refs[0] - f * D
+                    v = make_tier("I", "v", [(edge / 2, edge, "v")], 0.0, edge) if rng.random() < 0.6 else make_tier("P", "v", [(edge, "v")], 0.0, edge)
+                else:
+                    edge = refs[-1] + f * D
+                    v = make_tier("I", "v", [(edge, edge + 0.5, "v")], edge, 6.0 + 20 * D) if rng.random() < 0.6 else make_tier("P", "v", [(edge, "v")], edge, 6.0 + 20 * D)
+                tg.addTier(v, reportingMode="silence")
             call(praatio_scripts.alignBoundariesAcrossTiers, tg, "ref", D)
     m = (5000 if tier == "quick" else 100000) // nshards
     for k in range(m):
